@@ -33,7 +33,9 @@ MANIFEST = {
             'segment between device requests. Sampled.'
             ' One format string is executed twice around the appearance o'
             'r disappearance of a variable named like its field; formats '
-            'consisting of doubled braces only are included.',
+            'consisting of doubled braces only are included.'
+            ' Numbered formats run to 21 fields; every seventh script run'
+            's with the root logger at DEBUG.',
     'note': 'Trusted: reference formatter; Python str()/format() as the '
             'meaning of "the text of its value". Values are chosen so that the '
             'format spec fits the value type (a ValueError from str.format is '
